@@ -43,6 +43,12 @@ ASSUMPTIONS = [
     "a pool has at least one worker thread (`nbThreads >= 1`)",
     "the alphabet is the statement's: connect / call / graceful close / abrupt close / server close (plus connect with "
     "failing credentials when an authenticator is configured); hostile byte strings belong to C16",
+    "slow credentials (a client inside the authenticator when close() runs, its credentials sent afterwards) are part of "
+    "the correspondence, the oracle and the executable model for all four kinds; in Lean they are covered by the local "
+    "theorem close_reaches_authenticating_client (any state, threaded / one-shot) rather than by the global invariant, "
+    "whose alphabet has connect with good or failing credentials only",
+    "descriptor release is judged after the cyclic garbage collector had a chance (a socket held by the traceback of the "
+    "exception that ended its thread is freed by gc, not by the reference count)",
     "`no_residue` is stated for a running server; for a closed one `close_terminates_clients` says every client is "
     "terminated (the defunct poll object of a closed pool keeps the numbers of the descriptors it closed at that moment)",
     "one-shot: a client rejected by the authenticator is the one connection the server takes",
